@@ -79,7 +79,7 @@ def cut(rng, stream, style):
     return chunks
 
 
-CMDS = [b'', b'v', b'ver', b'block', b'blockx', b'a' * 12, b'pi\0ng', b'\0x', b'inv']
+CMDS = [b'', b'v', b'ver', b'block', b'blockx', b'a' * 12, b'pi\0ng', b'\0x', b'inv', b'a\0b', b'\0a', b'get\0\0data', b'block\0x']
 
 
 class C07(Prop):
@@ -157,6 +157,8 @@ class C07(Prop):
                    'chunks': [list(c) for c in chunks], 'meta': meta}
 
     def run_impl(self, case):
+        if case.get('session'):
+            return self.session_scenario(case)
         from aiorpcx import framing
         magic = bytes(case['magic'])
         if case['kind'] == 'frame':
@@ -171,6 +173,8 @@ class C07(Prop):
         return f"(PP {c_bytes(bytes(case['magic']))} {c_N(case['maxp'])} {c_N(case['maxb'])})"
 
     def coq_case(self, case, obs):
+        if case.get('session'):
+            return None
         if case['kind'] == 'frame':
             o = 'None' if obs['framed'] is None else f"(Some {c_bytes(bytes(obs['framed']))})"
             return f"CFrame {self._P(case)} {c_bytes(bytes(case['cmd']))} {c_bytes(bytes(case['payload']))} {o}"
@@ -188,6 +192,8 @@ class C07(Prop):
         return f"run sha256d_4 {self._P(case)} 12 [] {chunks}"
 
     def oracle(self, case, obs):
+        if case.get('session'):
+            return self.session_oracle(case, obs)
         magic = bytes(case['magic'])
         if case['kind'] == 'frame':
             cmd, p = bytes(case['cmd']), bytes(case['payload'])
@@ -224,16 +230,106 @@ class C07(Prop):
                     return 'corrupted magic not reported as bad magic'
         return None
 
+    # ---- a real MessageSession: every framing error is counted; bad magic / over-limit length close the connection
+    @staticmethod
+    def session_scenario(case):
+        import asyncio as aio
+        from harness import sessions
+        from aiorpcx import MessageSession
+        from aiorpcx import framing
+        loop = sessions.new_loop()
+        try:
+            got = []
+
+            class Srv(MessageSession):
+                cost_decay_per_sec = 0
+
+                async def handle_message(self, message):
+                    got.append([list(message[0]), len(message[1])])
+
+            async def main():
+                proto, ft, s = sessions.attach(Srv, 'server', case['transport'])
+                f = framing.BitcoinFramer()
+                stream = b''
+                for m in case['msgs']:
+                    b = bytearray(f.frame((bytes(m['cmd']), bytes(m['payload']))))
+                    if m['fault'] == 'sum':
+                        b[20] ^= 0x55
+                    elif m['fault'] == 'magic':
+                        b[0] ^= 0x55
+                    elif m['fault'] == 'size':
+                        b[16:20] = (f.max_payload_size + 1 + m.get('extra', 0)).to_bytes(4, 'little')
+                    stream += bytes(b)
+                for i in range(0, len(stream), case['chunk']):
+                    if ft.lost:
+                        break
+                    proto.data_received(stream[i:i + case['chunk']])
+                    await sessions.settle(4)
+                await aio.sleep(35)
+                return {'errors': s.errors, 'recv_count': s.recv_count, 'got': got, 'closing': ft.closing or ft.lost,
+                        'pm_done': proto._process_messages_task.done()}
+            return loop.run_until_complete(main())
+        finally:
+            sessions.close_loop(loop)
+
+    @staticmethod
+    def session_oracle(case, obs):
+        # up to the first fatal fault: every message with a good checksum is handled, every fault is counted
+        want_got, want_err, fatal = [], 0, False
+        for m in case['msgs']:
+            if m['fault'] in ('magic', 'size'):
+                want_err += 1
+                fatal = True
+                break
+            if m['fault'] == 'sum':
+                want_err += 1
+            else:
+                want_got.append([list(m['cmd']), len(m['payload'])])
+        if obs['got'] != want_got:
+            return f"message session handled {obs['got']}, expected {want_got}"
+        if obs['errors'] != want_err:
+            return f"message session counted {obs['errors']} errors, expected {want_err}"
+        if fatal and not obs['closing']:
+            return 'the message session did not close the connection after bad magic / an over-limit length'
+        if not fatal and obs['closing']:
+            return 'the message session closed the connection although only checksum errors occurred'
+        return None
+
+    def extra_checks(self, ctx):
+        from harness.core import Failure
+        rng = ctx['rng']
+        out = []
+        n = 60 if ctx['tier'] == 'quick' else 600
+        for _ in range(n):
+            msgs = [{'cmd': list(rng.choice([b'ping', b'verack', b'tx', b'a' * 12])), 'payload': list(bytes(rng.randrange(256) for _ in range(rng.choice([0, 1, 5, 40])))),
+                     'fault': rng.choice(['none', 'none', 'none', 'sum', 'sum', 'magic', 'size'])} for _ in range(rng.randrange(1, 6))]
+            case = {'session': True, 'msgs': msgs, 'chunk': rng.choice([1, 7, 24, 1000]), 'transport': rng.choice(['rs', 'us'])}
+            obs = self.session_scenario(case)
+            ctx['extra_evals'] += 1
+            cl = self.session_oracle(case, obs)
+            if cl:
+                out.append(Failure(case, obs, cl))
+                if len(out) >= 3:
+                    break
+        ctx['notes'].append(f'message-session scenarios on a real MessageSession: {n} streams with checksum / magic / size faults')
+        return out
+
     def classify(self, case, obs, clause):
+        if case.get('session'):
+            return None
         if case['kind'] == 'frame' and case['cmd'] and case['cmd'][-1] == 0 and len(case['cmd']) <= 12 \
                 and 'feeding the bytes back' in clause:
             return 'F17'
         return None
 
     def nontrivial(self, case, obs):
+        if case.get('session'):
+            return True
         return case['kind'] == 'run' and len(case['chunks']) >= 2 and any(r[0] == 'ok' for r in obs['results'])
 
     def histogram(self, case, obs):
+        if case.get('session'):
+            return ['session']
         if case['kind'] == 'frame':
             return ['frame', 'frame_rejected' if obs['framed'] is None else 'frame_ok']
         h = ['run', 'corrupt=%s' % (case.get('meta') or {}).get('corrupt')]
